@@ -63,6 +63,10 @@ class SrcGen:
         self.nid = 0
         self.ncond = 0
         self.conds = []        # plain values of the condition inputs, in input order after the 3 ints
+        # every third program contains at least one block region that the library refuses while it closes (a variable
+        # defined in one branch only): the refusal is an exception leaving the region through its closing call
+        self.want_misuse = rnd.random() < 0.4
+        self.force_misuse = False
 
     def fresh(self):
         self.nid += 1
@@ -182,6 +186,9 @@ class SrcGen:
             self.emit(ind, "__enter(%d, 'block', %d, _)" % (rid, conj(eff, v)))
             self.emit(ind, "if _if(%s, ctx=_):" % c)
             self.emit(ind + 1, "__inside(%d, %d)" % (rid, conj(eff, v)))
+            if self.force_misuse:
+                self.force_misuse = False
+                self.emit(ind + 1, "_.z%d = x0" % self.fresh())
             self.body(ind + 1, depth, conj(eff, v), True)
             rest = 1 - v
             if r.random() < 0.4:
@@ -231,7 +238,10 @@ class SrcGen:
     def program(self):
         r = self.rnd
         self.lines = []
-        for _ in range(r.randint(1, 3)):
+        ntop = r.randint(1, 3)
+        for it in range(ntop):
+            if it == ntop - 1:
+                self.force_misuse = self.want_misuse      # in the last top-level item, so that the rest of the program still runs
             if r.random() < 0.8:
                 self.region(0, 1, 1)
             else:
